@@ -226,14 +226,25 @@ def r4(run, ctx):
               'the glob/regex matcher lower-cases both sides', m, m.node,
               'start/stop/restart match watcher names case-sensitively')
     gw = ctx.fn('circus.commands.base:Command._get_watcher')
-    run.check('R4', 'except KeyError' in norm_text(gw.node) and 'MessageError' in norm_text(gw.node),
-              'an unknown name is a message error', gw, gw.node)
+    refused = False
+    for t in ast.walk(gw.node):
+        if isinstance(t, ast.Try):
+            for h in t.handlers:
+                names = [(dotted(e) or '').split('.')[-1] for e in (
+                    h.type.elts if isinstance(h.type, ast.Tuple) else [h.type])] \
+                    if h.type is not None else ['*']
+                if {'KeyError', 'LookupError', 'Exception', '*'} & set(names) and any(
+                        isinstance(r, ast.Raise) and r.exc is not None and
+                        'MessageError' in norm_text(r.exc) for st in h.body for r in ast.walk(st)):
+                    refused = True
+    run.check('R4', refused, 'an unknown name is a message error', gw, gw.node)
 
 
 def r5(run, ctx):
     run.rule('R5', 'views read the directory, nothing else')
     le = ctx.fn('circus.commands.list:List.execute')
-    run.check('R5', 'sorted(arbiter._watchers_names)' in norm_text(le.node),
+    run.check('R5', any(isinstance(x, ast.Attribute) and x.attr == '_watchers_names' and
+                        norm_text(x.value) == 'arbiter' for x in ast.walk(le.node)),
               'list reads the name index', le, le.node)
     for key, src in ((A + 'numwatchers', 'len(self.watchers)'),
                      (A + 'statuses', 'self.watchers'), (A + 'numprocesses', 'self.watchers')):
